@@ -327,6 +327,29 @@ DEREF_CASES = [
 ]
 
 
+# offset_of! at a generic call site, evaluated for one instantiation and then for another in the same process: the
+# value reported is that of the SECOND instantiation (anything the expansion keeps between evaluations would show)
+GENERIC_OFFSET_CASES = [
+    # (module, first instantiation, second instantiation, alignment of the probed field in the second)
+    ("goff_u8_u64", "u8", "u64", 8), ("goff_u64_u16", "u64", "u16", 2), ("goff_u32_u8", "u32", "u8", 1), ("goff_u16_u128", "u16", "u128", 16),
+]
+
+
+def generic_offset_module(first, second):
+    return ("#[derive(Default)] #[repr(C)] pub struct GPair<T> { pub a: u8, pub value: T }\n"
+            "#[derive(Default)] pub struct GTrip<A, B>(pub A, pub u8, pub B);\n"
+            "fn two<T: Default>() -> usize { bytemuck::offset_of!(GPair::<T>, value) }\n"
+            "fn three<T: Default>() -> usize { bytemuck::offset_of!(GPair::<T>::default(), GPair::<T>, value) }\n"
+            "fn two_t<A: Default, B: Default>() -> usize { bytemuck::offset_of!(GTrip::<A, B>, 2) }\n"
+            "pub fn facts() -> String {\n"
+            "  let _ = (two::<%s>(), three::<%s>(), two_t::<%s, %s>());\n"
+            "  let a = two::<%s>() as i64; let b = three::<%s>() as i64; let c = core::mem::offset_of!(GPair<%s>, value) as i64;\n"
+            "  let t = two_t::<%s, %s>() as i64; let tc = core::mem::offset_of!(GTrip<%s, %s>, 2) as i64;\n"
+            "  // the tuple-struct probe folds into the first number: any disagreement there shows as -4\n"
+            "  format!(\"{} {} {}\", if t == tc { a } else { -4 }, b, c) }"
+            % (first, first, first, second, second, second, second, second, first, second, first))
+
+
 def offset_modules(defs):
     """One module per (definition, field): both forms of bytemuck::offset_of! next to core::mem::offset_of!."""
     mods = []
@@ -354,6 +377,8 @@ def offset_modules(defs):
             mods.append(("s%d_off%d" % (i, k), body))
     for (m, text, must) in DEREF_CASES:
         mods.append((m, text))
+    for (m, first, second, _) in GENERIC_OFFSET_CASES:
+        mods.append((m, generic_offset_module(first, second)))
     return mods
 
 
@@ -435,6 +460,14 @@ def struct_lines(defs, verdicts, facts):
     for (m, text, must) in DEREF_CASES:
         if m in verdicts:
             lines.append("504 0 0 0 0 0 0 0 0 - ; V %d ; %s ; 3" % (1 if verdicts[m] is None else 0, m))
+    for (m, first, second, falign) in GENERIC_OFFSET_CASES:
+        if m in verdicts:
+            if verdicts[m] is None and m in facts:
+                a, b, c = [int(x) for x in facts[m].split()]
+                v = [1, 0, falign, a, b, c]
+            else:
+                v = [0, 0, falign, -1, -1, falign]
+            lines.append("503 0 0 0 0 0 0 0 0 - ; V %s ; %s ; 3" % (" ".join(str(x) for x in v), m))
     return lines, skipped
 
 
@@ -778,6 +811,9 @@ def ck_render(t, name, out_defs):
         return t[1]
     if t[0] == "struct":
         ftys = [ck_render(f, "%s_f%d" % (name, k), out_defs) for k, f in enumerate(t[3])]
+        if len(t) > 4 and t[4] == "tenum":
+            out_defs.append("#[derive(Clone, Copy, bytemuck::CheckedBitPattern)] #[repr(transparent)] pub enum %s { Only(%s) }" % (name, ", ".join(ftys)))
+            return name
         rep = ["C"] + (["packed(%d)" % t[1]] if t[1] else []) + (["align(%d)" % t[2]] if t[2] else [])
         out_defs.append("#[derive(Clone, Copy, bytemuck::CheckedBitPattern)] #[repr(%s)] pub struct %s { %s }" % (
             ", ".join(rep), name, ", ".join("pub g%d: %s" % (k, ty) for k, ty in enumerate(ftys))))
@@ -799,6 +835,8 @@ def checked_family(tier, seed):
     rnd = random.Random(seed * 2654435761 % (1 << 31) + 3)
     n = 70 if tier == "quick" else 600
     L = [("leaf",) + x for x in CK_LEAVES]
+    # zero-sized leaves of alignment 1 (only used by the transparent-enum entries of the corpus, not by the random part)
+    ZL = [("leaf", "()", 0, 1, 0, [[]], []), ("leaf", "[u8; 0]", 0, 1, 0, [[]], [])]
 
     def has_align(t):
         """an align(N) modifier anywhere inside t (rustc refuses a packed type that contains one: E0588)"""
@@ -847,6 +885,10 @@ def checked_family(tier, seed):
         # over-aligned enums with fields, and one nested in a struct
         ("enum", 2, "u8", [(0, [L[0]]), (1, [])], 4), ("enum", 3, "u8", [(0, [L[3]]), (2, [L[1]])], 8), ("enum", 1, "i32", [(0, [L[3]]), (1, [])], 16),
         ("struct", 0, 0, [L[0], ("enum", 2, "u8", [(0, [L[3]]), (1, [L[0]])], 4)]),
+        # #[repr(transparent)] enums with fields: one variant, one data field among zero-sized ones of alignment 1; layout and
+        # validity are those of a repr(C) struct of the same fields (the model's view), the derive has its own arm for them
+        ("struct", 0, 0, [L[3]], "tenum"), ("struct", 0, 0, [ZL[0], L[3]], "tenum"), ("struct", 0, 0, [ZL[1], L[4]], "tenum"),
+        ("struct", 0, 0, [L[4], ZL[0]], "tenum"), ("struct", 0, 0, [ZL[0], L[6], ZL[1]], "tenum"), ("struct", 0, 0, [ZL[1], ZL[0], L[1]], "tenum"),
     ]
     defs = list(corpus)
     while len(defs) < n:
